@@ -152,10 +152,15 @@ fn families(names: &[i32], rng: &mut ChaCha8Rng, budget: usize) -> Vec<Vec<Vec<i
     let mut uni: Vec<i32> = names.to_vec();
     uni.push(99);
     let k = uni.len();
-    let subsets: Vec<Vec<i32>> = (1..(1usize << k)).map(|m| uni.iter().enumerate().filter(|(i, _)| m >> i & 1 == 1).map(|(_, x)| *x).collect()).collect();
+    // all non-empty subsets while that is feasible, else a random sample of them
+    let subsets: Vec<Vec<i32>> = if k <= 12 {
+        (1..(1usize << k)).map(|m| uni.iter().enumerate().filter(|(i, _)| m >> i & 1 == 1).map(|(_, x)| *x).collect()).collect()
+    } else {
+        (0..64).map(|_| { let p = rng.gen_range(1..=9) as f64 / 10.0; let mut s: Vec<i32> = uni.iter().copied().filter(|_| rng.gen_bool(p)).collect(); if s.is_empty() { s.push(uni[0]); } s }).collect()
+    };
     let mut out: Vec<Vec<Vec<i32>>> = vec![vec![]];
     let ns = subsets.len();
-    let total = ns + ns * (ns - 1) / 2 + ns * (ns - 1) * (ns - 2) / 6;
+    let total = if k <= 12 { ns + ns * (ns - 1) / 2 + ns * (ns - 1) * (ns - 2) / 6 } else { usize::MAX };
     if total <= budget {
         for a in 0..ns {
             out.push(vec![subsets[a].clone()]);
